@@ -132,7 +132,10 @@ reftable_new_writer(ssize_t (*writer_func)(void *, const void *, size_t),
 		abort();
 	}
 	wp->last_key = reftable_empty_strbuf;
-	wp->block = reftable_calloc(opts->block_size);
+	/* A log block is deflated in place; incompressible data comes out
+	   slightly larger than it went in (zlib: n + n/4096 + ... + 13). */
+	wp->block = reftable_calloc(opts->block_size + opts->block_size / 1000 +
+				    64);
 	wp->write = writer_func;
 	wp->write_arg = writer_arg;
 	wp->opts = *opts;
